@@ -1,7 +1,9 @@
 //! C08: the REAL `LinearizabilityTester` against a brute-force reference on ALL histories (ill-formed
 //! ones included) of at most N events over 2 threads and the register alphabet
 //! {Write('A'), Write('B'), Read} x {WriteOk, ReadOk('A'), ReadOk('B')}, reference object Register('A').
-//! N = 4 by default (22621 histories); VERIF_ORACLE_EVENTS=<n> overrides it.
+//! N = 5 by default (271453 histories, under a second); VERIF_ORACLE_EVENTS=<n> overrides it (4: 22621
+//! histories; 6: 3257437 histories, a few seconds). 5 is the smallest bound at which an off-by-one in the
+//! recorded last-completed index (`cs.len()` for `cs.len() - 1`) becomes visible.
 //!
 //! The reference never shares an algorithm with the tester: it enumerates every subset of the
 //! in-flight operations and every permutation of (completed + subset) and filters the full
@@ -49,7 +51,7 @@ pub(crate) fn token(e: &Ev) -> String {
 }
 
 pub(crate) fn max_events() -> usize {
-    std::env::var("VERIF_ORACLE_EVENTS").ok().and_then(|s| s.parse().ok()).unwrap_or(4)
+    std::env::var("VERIF_ORACLE_EVENTS").ok().and_then(|s| s.parse().ok()).unwrap_or(5)
 }
 
 /// Depth-first, pre-order enumeration of all histories of at most `max` events. `f(base_id, events)`.
@@ -358,7 +360,7 @@ const SPEC: Spec = Spec {
         "LIN.serialize.ensures.order",
         "LIN.on_invoke.ensures.record-last-completed",
     ],
-    obl_complete: &["LIN.is_consistent.ensures.complete", "LIN.serialize.ensures.complete"],
+    obl_complete: &["LIN.is_consistent.ensures.complete", "LIN.serialized_history.ensures.complete", "LIN.serialize.ensures.complete", "LIN.serialize.loop2.invariant.explored", "LIN.on_invoke.ensures.record-last-completed"],
 };
 
 pub fn run(ctx: &mut Ctx) {
